@@ -1,0 +1,83 @@
+//go:build verif
+
+package liquid
+
+// Contracts for the verification machinery in /verif (govc). Comment-only file:
+// compiled only with -tags verif, and even then it contains no code.
+
+// ---- the API (C07, C20, C02): every entry point is a thin wrapper over one parse and one
+// render; a failure comes back as (nil, err), a render into a writer reports the writer's
+// failure, and nothing panics on the way.
+
+//@ typeinv liquid.Template: self.root != nil && self.cfg != nil
+//@ typeinv liquid.Engine: true
+
+//@ func liquid.newTemplate
+//@ props C07 C02 C01
+//@ panics nothing
+//@ requires args: cfg != nil
+//@ assigns *
+//@ ghost cerr Val = nil
+//@ at call Compile #1: cerr = result1
+//@ ensures one: (result1 == nil) != (result0 == nil)
+//@ ensures parseError: cerr != nil ==> result0 == nil && result1 == cerr
+//@ ensures template: cerr == nil ==> result0 != nil && valid(result0)
+
+//@ func (*liquid.Engine).ParseTemplate
+//@ props C07 C02 C01
+//@ panics nothing
+//@ requires recv: e != nil
+//@ assigns *
+//@ ensures one: (result1 == nil) != (result0 == nil)
+//@ ensures template: result1 == nil ==> valid(result0)
+
+//@ func (*liquid.Template).FRender
+//@ props C20 C07 C02 C01
+//@ panics nothing
+//@ requires args: t != nil && w != nil && !is(w, *render.trimWriter)
+//@ assigns *
+//@ ghost rerr Val = nil
+//@ at call Render #1 before assert sameWriter: arg1 == w && arg0 == t.root
+//@ at call Render #1: rerr = result
+//@ ensures reported: rerr != nil ==> result != nil && result == rerr
+//@ ensures ok: rerr == nil ==> result == nil
+//@ ensures tree: @tree
+
+//@ func (*liquid.Template).Render
+//@ props C07 C02 C01
+//@ panics nothing
+//@ requires args: t != nil
+//@ assigns *
+//@ ghost rerr Val = nil
+//@ at call Render #1 before assert root: arg0 == t.root
+//@ at call Render #1: rerr = result
+//@ ensures failure: rerr != nil ==> len(result0) == 0 && result1 == rerr
+//@ ensures ok: rerr == nil ==> result1 == nil
+//@ ensures tree: @tree
+
+//@ func (*liquid.Template).RenderString
+//@ props C07 C02 C01
+//@ panics nothing
+//@ requires args: t != nil
+//@ assigns *
+//@ ensures failure: result1 != nil ==> result0 == ""
+
+//@ func (*liquid.Engine).ParseAndRender
+//@ props C07 C02 C01
+//@ panics nothing
+//@ requires recv: e != nil
+//@ assigns *
+//@ ensures failure: result1 != nil ==> len(result0) == 0
+
+//@ func (*liquid.Engine).ParseAndFRender
+//@ props C20 C07 C02 C01
+//@ panics nothing
+//@ requires args: e != nil && w != nil && !is(w, *render.trimWriter)
+//@ assigns *
+
+//@ func (*liquid.Engine).ParseAndRenderString
+//@ props C07 C02 C01
+//@ panics nothing
+//@ requires recv: e != nil
+//@ assigns *
+//@ ensures failure: result1 != nil ==> result0 == ""
